@@ -218,6 +218,13 @@ Definition em_additive_spec : list (string * list (string * em_field_kind)) := [
   ("TagUpdateUserPayedFees", [("PayedFees", FScalar)])
 ].
 
+(* TagStakePoolPenalty: the handler adds the delegate penalties to the pools, but the merger of the checked tree may
+   still use the overwrite middleware (engine signature C20:stake-pool-penalty-overwritten-in-merge). When it is
+   merged by withEventMerge, the function must be the field-wise addition of the stake pool reward. *)
+Definition em_additive_optional : list (string * list (string * em_field_kind)) := [
+  ("TagStakePoolPenalty", [("Reward", FScalar); ("DelegateRewards", FMap); ("DelegatePenalties", FMap)])
+].
+
 (* withEventMerge mergers that replace by key instead of adding (allocation blobber terms: the later term of a blobber wins) *)
 Definition em_keyed_replace_tags : list string :=
   ["TagUpdateAllocationBlobberTerm"; "TagAddOrOverwriteAllocationBlobberTerm"; "TagDeleteAllocationBlobberTerm"].
@@ -238,12 +245,18 @@ Definition em_spec_holds (kinds : list (string * em_kind)) (fns : list (string *
                      match em_fn_of fns (fst s) with
                      | Some (MfAdd fs) => em_fields_eqb fs (snd s)
                      | _ => false
-                     end)%bool) em_additive_spec.
+                     end)%bool) em_additive_spec &&
+  forallb (fun s => match em_fn_of fns (fst s) with
+                    | Some (MfAdd fs) => em_fields_eqb fs (snd s)
+                    | Some MfOther => false
+                    | None => true
+                    end) em_additive_optional.
 
 (* every withEventMerge merger of the table is in the spec or is one of the keyed-replace tags *)
 Definition em_merge_tags_covered (kinds : list (string * em_kind)) : bool :=
   forallb (fun m => match snd m with
                     | EmMerge => (existsb (fun s => String.eqb (fst s) (fst m)) em_additive_spec ||
+                                  existsb (fun s => String.eqb (fst s) (fst m)) em_additive_optional ||
                                   existsb (String.eqb (fst m)) em_keyed_replace_tags)%bool
                     | _ => true
                     end) kinds.
